@@ -118,7 +118,41 @@ func (e *env) queryChecked(q *query, before *stateSnap) *stateSnap {
 		if out.Unmarshal(res.Value) == nil && json.Unmarshal(out.Data, &tr) == nil && tr.Gas > 0 {
 			run.Count("recorded_tx_traces_compared_with_the_executed_gas", 1)
 			if tr.Gas != want {
-				run.Violation("trace-of-a-recorded-transaction-differs-from-its-execution:gas", e.label, map[string]any{"query": q.describe(), "traced_gas": tr.Gas, "executed_gas_used": want, "head": e.q.Height})
+				// witness: the same question for every predecessor (which one is the first whose replay deviates)
+				exempt := readsUncarriedContext(out.Data)
+				var predTraced []uint64
+				var req evmtypes.QueryTraceTxRequest
+				targetCode := ""
+				if req.Unmarshal(q.Data) == nil {
+					if to := req.Msg.AsTransaction().To(); to != nil {
+						qc := e.q.QueryCtx()
+						targetCode = fmt.Sprintf("%x", e.q.App.EvmKeeper.GetCode(qc, e.q.App.EvmKeeper.GetCodeHash(qc, to.Bytes())))
+					}
+					for k := range req.Predecessors {
+						r2 := req
+						r2.Msg, r2.Predecessors = req.Predecessors[k], req.Predecessors[:k]
+						q2 := *q
+						q2.Data = mustMarshal(&r2)
+						g := uint64(0)
+						if res2, _, esc2 := issue(e.q, &q2); res2 != nil && esc2 == nil && res2.Code == 0 {
+							var o2 evmtypes.QueryTraceTxResponse
+							var t2 struct {
+								Gas uint64 `json:"gas"`
+							}
+							if o2.Unmarshal(res2.Value) == nil && json.Unmarshal(o2.Data, &t2) == nil {
+								g = t2.Gas
+								exempt = exempt || readsUncarriedContext(o2.Data)
+							}
+						}
+						predTraced = append(predTraced, g)
+					}
+				}
+				if exempt {
+					run.Count("recorded_tx_traces_not_judged_they_read_block_context_the_request_does_not_carry", 1)
+				} else {
+					run.Violation("trace-of-a-recorded-transaction-differs-from-its-execution:gas", e.label, map[string]any{"query": q.describe(), "traced_gas": tr.Gas, "executed_gas_used": want, "head": e.q.Height,
+						"code_of_the_callee": targetCode, "traced_gas_of_predecessors": predTraced, "executed_gas_used_of_predecessors": q.Desc["executed_gas_used_of_predecessors"]})
+				}
 			}
 		}
 	}
@@ -138,6 +172,10 @@ func (e *env) queryChecked(q *query, before *stateSnap) *stateSnap {
 				run.Count("recorded_block_trace_entries_compared_with_the_executed_gas", 1)
 
 				if trs[i].Result.Gas != want[i] {
+					if readsUncarriedContext(out.Data) {
+						run.Count("recorded_block_traces_not_judged_they_read_block_context_the_request_does_not_carry", 1)
+						break
+					}
 					run.Violation("trace-of-a-recorded-block-differs-from-its-execution:gas", e.label, map[string]any{"query": q.describe(), "tx_index_among_ethereum_txs": i,
 						"traced_gas": trs[i].Result.Gas, "executed_gas_used": want[i], "head": e.q.Height})
 					break
@@ -471,4 +509,17 @@ func runTwin(run *vh.Run, label string, idx, nBlocks, nQ int) {
 		}
 		e.midErr = nil
 	}
+}
+
+// readsUncarriedContext tells whether a struct-logger trace executed an opcode whose answer comes from block context the
+// trace request does not carry (block gas limit, base fee, effective gas price, coinbase lookup, block hashes, difficulty)
+// or from a balance (fees are settled differently around a traced message): for such calls the statement does not promise
+// that a query predicts execution. TIMESTAMP and NUMBER are carried by the request and stay judged.
+func readsUncarriedContext(traceJSON []byte) bool {
+	for _, op := range []string{"GASLIMIT", "BASEFEE", "GASPRICE", "COINBASE", "BLOCKHASH", "DIFFICULTY", "RANDOM", "PREVRANDAO", "BALANCE", "SELFBALANCE"} {
+		if bytes.Contains(traceJSON, []byte(`"op":"`+op+`"`)) {
+			return true
+		}
+	}
+	return false
 }
